@@ -3,7 +3,8 @@
 Pipeline (DESIGN.md 7/C13):
   1. TLC (Gen_ScionNet with ATTACKS): the reference Router (ScionNet.tla, Step) and, per instance, the attack set of
      ScionNetAtk.tla: honest paths and reversed delivered packets; clock (last valid second / expired / future);
-     every <=2-subset (and the full set) of on-path links down; every ingress point; every single-field corruption
+     the walked packet at EVERY hop of its path (from the link and from inside the AS) x {clock before the segment
+     timestamp, valid, last valid second, expired}; every <=2-subset (and the full set) of on-path links down; every ingress point; every single-field corruption
      (hop in/eg/exp/mac, segid, timestamp, flags, pointers, destination IA); every recombination of <= 3 authentic
      segment slices joined at a common AS (valleys, core loops, up-up, down-up, wrong crossover); hop fields of two
      segments inside one info field; peering pieces with wrong partners; one-hop paths.  Theorems on the reference
@@ -18,8 +19,8 @@ Pipeline (DESIGN.md 7/C13):
      is evaluated by TLC (Trace_ScionNet: accept/reject = Step, links exist and are up, delivery AS).
 
 Reading adopted (S3): classes are coarse {malformed(drop), mac, expired, future, iface, ifdown, segchange, dst};
-Drop / anyhow::Error count as "dropped" (= malformed); a timestamp in the future and the location of a rejection are
-I-spec only (DRIFT); the destination is checked where the path ends (Appendix B), not at transit ASes; for one-hop
+Drop / anyhow::Error count as "dropped" (= malformed); a segment timestamp in the future makes the hop fields not yet
+valid (reject, class future - DESIGN 6.1); the location of a rejection is I-spec only (DRIFT); the destination is checked where the path ends (Appendix B), not at transit ASes; for one-hop
 paths only accept/reject is compared (a router may drop an invalid one-hop packet silently, as scionproto does).
 """
 import scionnet_common as sn
@@ -65,7 +66,7 @@ def run(c):
     import collections
     fams = collections.Counter(a["fam"].split(":")[0] for i in insts for a in i["attacks"])
     verd = collections.Counter(a["verdict"]["k"] + ("-" + a["verdict"]["class"] if a["verdict"]["class"] else "") for i in insts for a in i["attacks"])
-    for fam in ("honest", "clock-expired", "linkdown", "ingress", "corrupt", "recomb", "splice", "peermix", "onehop"):
+    for fam in ("honest", "clock-expired", "clock-future", "midpath-future", "midpath-valid", "midpath-last", "midpath-expired", "linkdown", "ingress", "corrupt", "recomb", "splice", "peermix", "onehop"):
         if fams[fam] == 0:
             c.fail_tool("vacuous: attack family %s is empty" % fam)
     for v in ("deliver", "reject-mac", "reject-expired", "reject-iface", "reject-ifdown", "reject-segchange", "reject-dst", "reject-malformed"):
